@@ -147,6 +147,7 @@ def run(chk: Check) -> None:
     run_option_writers(chk, ix, Resolver(ix))
     run_chained_plugin_data(chk, ix)
     run_plugin_data_in_interface_hash(chk, ix)
+    run_shadowed_files_read_consistently(chk, ix)
     R = Resolver(ix)
     chk.trusted += ["receiver typing by annotations (sa/resolve.py)", "RTA call graph with name-based fallback (sa/callgraph.py)"]
     mopt = ix.module("mypy.options")
@@ -586,3 +587,30 @@ def run_plugin_data_in_interface_hash(chk: Check, ix) -> None:
         r8.ok(key2, wc.loc(metas[0]))
     else:
         r8.violation(key2, wc.loc(), "CacheMeta is built without plugin_data=plugin_data: find_cache_meta cannot notice a changed plugin configuration")
+
+
+def run_shadowed_files_read_consistently(chk: Check, ix) -> None:
+    """R09.9: with --shadow-file, what is stat'ed, read and hashed for a module is the same file."""
+    r9 = chk.rule("R09.9", "--shadow-file SOURCE SHADOW makes mypy read SHADOW where it would read SOURCE; BuildManager.get_stat() applies the mapping (maybe_swap_for_shadow_path) and the cache record stores size, mtime and hash of what was read. In build.py every `fscache.read(p)` / `fscache.hash_digest(p)` of a module's source takes a `p` that went through maybe_swap_for_shadow_path (directly or through one local assignment): otherwise a run that adds or removes the option compares the stat of one file with the hash of the other and replays the wrong file's result", floor=3)
+    b = ix.module("mypy.build")
+    n = 0
+    for f in list(b.functions.values()) + [mm for c in b.classes.values() for mm in c.methods.values()]:
+        if f.name in ("maybe_swap_for_shadow_path", "get_stat"):
+            continue
+        mapped = set()
+        for a in ast.walk(f.node):
+            if isinstance(a, ast.Assign) and len(a.targets) == 1 and isinstance(a.targets[0], ast.Name) and isinstance(a.value, ast.Call) and call_name(a.value) == "maybe_swap_for_shadow_path":
+                mapped.add(a.targets[0].id)
+        for c in ast.walk(f.node):
+            if not (isinstance(c, ast.Call) and isinstance(c.func, ast.Attribute) and c.func.attr in ("read", "hash_digest") and norm(c.func.value).endswith("fscache") and c.args):
+                continue
+            n += 1
+            a0 = c.args[0]
+            key = f"build.{f.name}: fscache.{c.func.attr}({norm(a0)[:30]}) reads the file the shadow mapping selects"
+            ok = (isinstance(a0, ast.Name) and a0.id in mapped) or (isinstance(a0, ast.Call) and call_name(a0) == "maybe_swap_for_shadow_path")
+            if ok:
+                r9.ok(key, f.loc(c))
+            else:
+                r9.violation(key, f.loc(c), f"`{norm(c)[:70]}` uses a path that has not been through maybe_swap_for_shadow_path while get_stat() in the same comparison has: with a shadow file of the same size, adding --shadow-file on an existing cache finds size and hash unchanged and the original file's diagnostics are replayed")
+    if n < 3:
+        raise AnalysisError(f"build.py: only {n} fscache.read / hash_digest calls found")
